@@ -300,13 +300,14 @@ func (V *Verifier) pkgByShort(short string) *types.Package {
 func (ex *Exec) checkRequires(f *frame, st *State, c *Contract, callee *ssa.Function, sig *types.Signature, recv Term, args []Term, argVals []ssa.Value, pos token.Pos) {
 	env := ex.contractEnv(c, callee, sig, recv, nil, args, st, st)
 	for _, r := range c.Requires {
-		v, err := env.trans(r.Expr)
-		if err != nil {
-			ex.V.fatal("%s requires %q: %v", c.Key, r.Text, err)
-		}
 		lab := r.Label
 		if lab == "" {
 			lab = "pre"
+		}
+		v, err := env.trans(r.Expr)
+		if err != nil {
+			ex.oblige(f, st, "requires", shortKey(c.Key)+":"+lab+":does-not-attach", r.Label, pos, tFalse, "the contract no longer attaches to the code ("+err.Error()+"): "+r.Text)
+			continue
 		}
 		ex.oblige(f, st, "requires", shortKey(c.Key)+":"+lab, r.Label, pos, v.t, "precondition of "+c.Key+": "+r.Text)
 	}
@@ -323,13 +324,14 @@ func (ex *Exec) applyContract(f *frame, st *State, c *Contract, callee *ssa.Func
 	envPre := ex.contractEnv(c, callee, sig, recv, recvT, args, pre, pre)
 	// preconditions
 	for _, r := range c.Requires {
-		v, err := envPre.trans(r.Expr)
-		if err != nil {
-			ex.V.fatal("%s requires %q: %v", c.Key, r.Text, err)
-		}
 		lab := r.Label
 		if lab == "" {
 			lab = "pre"
+		}
+		v, err := envPre.trans(r.Expr)
+		if err != nil {
+			ex.oblige(f, st, "requires", shortKey(c.Key)+":"+lab+":does-not-attach", r.Label, pos, tFalse, "the contract no longer attaches to the code ("+err.Error()+"): "+r.Text)
+			continue
 		}
 		ex.oblige(f, st, "requires", shortKey(c.Key)+":"+lab, r.Label, pos, v.t, "precondition of "+c.Key+": "+r.Text)
 	}
@@ -348,6 +350,9 @@ func (ex *Exec) applyContract(f *frame, st *State, c *Contract, callee *ssa.Func
 	}
 	for _, g := range c.AlsoMods {
 		if gv, ok := ex.V.specs.ghosts[g]; ok {
+			if sort, _, err := envPre.ghostSort(gv); err == nil {
+				ex.regComp("G:"+gv.Name, sort)
+			}
 			ex.havoc(st, "G:"+gv.Name)
 		} else {
 			ex.havoc(st, g)
@@ -371,7 +376,8 @@ func (ex *Exec) applyContract(f *frame, st *State, c *Contract, callee *ssa.Func
 		for _, e := range group {
 			v, err := envPost.trans(e.Expr)
 			if err != nil {
-				ex.V.fatal("%s ensures %q: %v", c.Key, e.Text, err)
+				ex.note("contract clause does not attach and is not assumed: " + c.Key + ": " + e.Text)
+				continue
 			}
 			ex.assume(st, v.t)
 		}
